@@ -123,7 +123,7 @@ class Obs(object):
     __slots__ = ('verdict', 'exc', 'exc_where', 'exc_obj', 'errors', 'tree', 'ack', 'html', 'xml', 'nodes', 'tree_exc')
 
 
-def run(text, sinks=('ack', 'html', 'xml'), charset='E', want_nodes=True, map_path=None, exclude=None):
+def run(text, sinks=('ack', 'html', 'xml'), charset='E', want_nodes=True, map_path=None, exclude=None, params=None):
     """-> Obs"""
     o = Obs()
     o.verdict = None; o.exc = None; o.exc_where = None; o.exc_obj = None; o.errors = None; o.tree = None
@@ -132,6 +132,8 @@ def run(text, sinks=('ack', 'html', 'xml'), charset='E', want_nodes=True, map_pa
     p.set('charset', charset)
     if exclude:
         p.set('exclude_external_codes', exclude)
+    for k, v in (params or {}).items():
+        p.set(k, v)
     fa = io.StringIO() if 'ack' in sinks else None
     fh = io.StringIO() if 'html' in sinks else None
     fx = io.StringIO() if 'xml' in sinks else None
